@@ -116,51 +116,80 @@ def decrypts (k : Nat) (s : Sess) (r : Req) : Bool :=
   | .done xb => r.enc == some (k, xb)
   | _ => false
 
-/-- One responder step on session `k` (state `s`); `none` = error message. -/
-def handle (st : State) (k : Nat) (s : Sess) (r : Req) : Option (Sess × Nat × List Effect) :=
-  if r.typ = 10 then
-    if r.wf then some ({ s with diHdr := true }, 11, []) else none
-  else if r.typ = 12 then
-    if r.wf && s.diHdr then some (s, 13, [.addVoucher k]) else none
-  else if r.typ = 20 then
-    if r.wf then some ({ s with to0Nonce := true }, 21, []) else none
-  else if r.typ = 22 then
-    if r.wf && s.to0Nonce && (r.nonceOf == some k) && (r.signer == some r.dev) then
-      some (s, 23, [.setBlob k r.dev]) else none
-  else if r.typ = 30 then
-    if r.wf && st.blobs.contains r.dev then some ({ s with to1Nonce := true }, 31, []) else none
-  else if r.typ = 32 then
-    if r.wf && s.to1Nonce && (r.nonceOf == some k) && st.blobs.contains r.dev && (r.signer == some r.dev) then
-      some (s, 33, []) else none
-  else if r.typ = 60 then
-    if r.wf && st.vouchers.contains r.dev && r.kexOk then
-      some ({ s with guid := some r.dev, proveNonce := true, kex := .started }, 61, []) else none
-  else if r.typ = 62 then
-    if r.wf && r.idxOk && guidIn st s then some (s, 63, []) else none
-  else if r.typ = 64 then
-    if r.wf && guidIn st s && (r.signer == s.guid) && (r.nonceOf == some k) && s.proveNonce
-        && (some r.dev == s.guid) && (r.xb != 0) && (s.kex == .started) then
-      some ({ s with kex := .done r.xb, setupNonce := true, replGuid := !st.reuse, proved := some r }, 65, [])
-    else none
-  else if r.typ = 66 then
-    if decrypts k s r && r.wf && guidIn st s then
-      some ({ s with mtu := true, replHmac := s.replHmac || r.hmac }, 67, []) else none
-  else if r.typ = 68 then
-    if decrypts k s r && r.wf && s.mtu then
-      if !s.devmodDone then
-        some ({ s with devmodDone := r.dm }, 69, [])
-      else if s.modStep < st.modRounds && guidIn st s then
-        some ({ s with modStep := s.modStep + 1 }, 69, [.ownerModule k])
-      else none
-    else none
-  else if r.typ = 70 then
-    if decrypts k s r && r.wf && (r.nonceOf == some k) then
-      if !s.replHmac then some (s, 71, [])
-      else match s.guid with
-        | some d => if st.vouchers.contains d && s.replGuid then some (s, 71, [.replaceVoucher k d]) else none
-        | none => none
+abbrev Res := Option (Sess × Nat × List Effect)
+
+/-- DI.AppStart -/
+def h10 (s : Sess) (r : Req) : Res :=
+  if r.wf then some ({ s with diHdr := true }, 11, []) else none
+/-- DI.SetHMAC → voucher stored -/
+def h12 (k : Nat) (s : Sess) (r : Req) : Res :=
+  if r.wf && s.diHdr then some (s, 13, [.addVoucher k]) else none
+/-- TO0.Hello -/
+def h20 (s : Sess) (r : Req) : Res :=
+  if r.wf then some ({ s with to0Nonce := true }, 21, []) else none
+/-- TO0.OwnerSign → blob stored -/
+def h22 (k : Nat) (s : Sess) (r : Req) : Res :=
+  if r.wf && s.to0Nonce && (r.nonceOf == some k) && (r.signer == some r.dev) then
+    some (s, 23, [.setBlob k r.dev]) else none
+/-- TO1.HelloRV -/
+def h30 (st : State) (s : Sess) (r : Req) : Res :=
+  if r.wf && st.blobs.contains r.dev then some ({ s with to1Nonce := true }, 31, []) else none
+/-- TO1.ProveToRV -/
+def h32 (st : State) (k : Nat) (s : Sess) (r : Req) : Res :=
+  if r.wf && s.to1Nonce && (r.nonceOf == some k) && st.blobs.contains r.dev && (r.signer == some r.dev) then
+    some (s, 33, []) else none
+/-- TO2.HelloDevice -/
+def h60 (st : State) (s : Sess) (r : Req) : Res :=
+  if r.wf && st.vouchers.contains r.dev && r.kexOk then
+    some ({ s with guid := some r.dev, proveNonce := true, kex := .started }, 61, []) else none
+/-- TO2.GetOVNextEntry -/
+def h62 (st : State) (s : Sess) (r : Req) : Res :=
+  if r.wf && r.idxOk && guidIn st s then some (s, 63, []) else none
+/-- TO2.ProveDevice: signature under the voucher's device key, the session's nonce, the voucher's
+GUID as UEID; only then is the key exchange completed with the token's parameter. -/
+def h64 (st : State) (k : Nat) (s : Sess) (r : Req) : Res :=
+  if r.wf && guidIn st s && (r.signer == s.guid) && (r.nonceOf == some k) && s.proveNonce
+      && (some r.dev == s.guid) && (r.xb != 0) && (s.kex == .started) then
+    some ({ s with kex := .done r.xb, setupNonce := true, replGuid := !st.reuse, proved := some r }, 65, [])
+  else none
+/-- TO2.DeviceServiceInfoReady -/
+def h66 (st : State) (k : Nat) (s : Sess) (r : Req) : Res :=
+  if decrypts k s r && r.wf && guidIn st s then
+    some ({ s with mtu := true, replHmac := s.replHmac || r.hmac }, 67, []) else none
+/-- TO2.DeviceServiceInfo: devmod first, then the owner module -/
+def h68 (st : State) (k : Nat) (s : Sess) (r : Req) : Res :=
+  if decrypts k s r && r.wf && s.mtu then
+    if !s.devmodDone then
+      some ({ s with devmodDone := r.dm }, 69, [])
+    else if s.modStep < st.modRounds && guidIn st s then
+      some ({ s with modStep := s.modStep + 1 }, 69, [.ownerModule k])
     else none
   else none
+/-- TO2.Done → voucher replaced (unless credential reuse) -/
+def h70 (st : State) (k : Nat) (s : Sess) (r : Req) : Res :=
+  if decrypts k s r && r.wf && (r.nonceOf == some k) then
+    if !s.replHmac then some (s, 71, [])
+    else match s.guid with
+      | some d => if st.vouchers.contains d && s.replGuid then some (s, 71, [.replaceVoucher k d]) else none
+      | none => none
+  else none
+
+/-- One responder step on session `k` (state `s`); `none` = error message. -/
+def handle (st : State) (k : Nat) (s : Sess) (r : Req) : Res :=
+  match r.typ with
+  | 10 => h10 s r
+  | 12 => h12 k s r
+  | 20 => h20 s r
+  | 22 => h22 k s r
+  | 30 => h30 st s r
+  | 32 => h32 st k s r
+  | 60 => h60 st s r
+  | 62 => h62 st s r
+  | 64 => h64 st k s r
+  | 66 => h66 st k s r
+  | 68 => h68 st k s r
+  | 70 => h70 st k s r
+  | _ => none
 
 /-- bookkeeping after an answered request -/
 def finish (s : Sess) (typ resp : Nat) : Sess :=
